@@ -20,7 +20,7 @@ ID = "C06"
 LEVEL = "model_checking"
 RULE = (
     "every history of (releases in {0,1,2}, deaths in {none, lowest pid, highest pid, all}) per record interval up to the bound, "
-    "crossed with layout, output period and direction (forward; time-reversed for all histories up to 2 records and a quarter/all of the longer ones), other dimensions (particle variables, reference time, numrec) assigned round-robin; "
+    "crossed with layout, output period and direction (forward; time-reversed for all histories up to 2 records and a quarter (thorough: all, with one round-robin combination of the other dimensions) of the longer ones), other dimensions (particle variables, reference time, numrec) assigned round-robin; "
     "non-trivial = some particle dies before a later record AND some record holds >= 1 particle; lattice points distinct by construction"
 )
 RULE += " Beyond the lattice (chosen scenarios, not enumerated): crowds of 120-700 particles; a reference time in another century; every dense variable also read in one piece with sentinel-initialised buffers."
@@ -54,8 +54,8 @@ def cases(tier, seed):
                     combos = list(itertools.product(PVARS, REFS, b["numrec"]))
                 for pv, ref, numrec in combos:
                     out.append(dict(hist=[list(h) for h in hist], layout=layout, period=period, pvars=pv, ref=ref, numrec=numrec, packed=bool((idx // 5) % 2)))
-                    # the same history in a time-reversed run: all histories up to 2 records, every fourth (every one in thorough) beyond
-                    if R <= 2 or tier == "thorough" or idx % 4 == 0:
+                    # the same history in a time-reversed run: all histories up to 2 records, every fourth beyond (thorough: with the round-robin combination)
+                    if R <= 2 or ((idx % 4 == 0 or (tier == "thorough" and R == 3)) and (pv, ref, numrec) == (PVARS[idx % 3], REFS[(idx // 3) % 3], b["numrec"][(idx // 9) % 2])):
                         out.append(dict(hist=[list(h) for h in hist], layout=layout, period=period, pvars=pv, ref=ref, numrec=numrec, rev=True, packed=bool((idx // 7) % 2)))
     # beyond the small lattice: a crowd (a death among hundreds must still be removed) and a reference time in another century
     for layout, (crowd, death) in itertools.product(b["layouts"], [(300, "low"), (700, "high"), (120, "low")]):
